@@ -106,6 +106,15 @@ partial def tysTo : TyList → List Sexp
   | .cons t ts => tyTo t :: tysTo ts
 end
 
+partial def pairOf : Sexp → Option InstPair
+  | .list [.atom "ty", .atom a, t] => do some (.ty (toCodes (dec a)) (← tyOf t))
+  | .list [.atom "tm", .atom x, t] => do some (.tm (toCodes (dec x)) (← skelOf t))
+  | _ => none
+
+def pairTo : InstPair → Sexp
+  | .ty a t => .list [.atom "ty", .atom (enc (ofCodes a)), tyTo t]
+  | .tm x t => .list [.atom "tm", .atom (enc (ofCodes x)), skelTo t]
+
 def namesOKb (S : List (List Nat)) : Skel → Bool
   | .atom s => NameOK S s
   | .app f a => namesOKb S f && namesOKb S a
@@ -212,6 +221,18 @@ def handle (line : String) : String :=
     | some uni, some hyps, some concl =>
       enc (ofCodes (printThmText Gen.table Gen.ladder Gen.symbolsC Gen.seqSyms uni hyps concl))
     | _, _, _ => "bad-op"
+  | some (.list [.atom "printinst", u, .list ps]) =>
+    match u.toBool?, ps.mapM pairOf with
+    | some uni, some pairs =>
+      toString (Sexp.list ((printInst Gen.table Gen.ladder Gen.tySyms Gen.instSyms uni pairs).map tokTo))
+    | _, _ => "bad-op"
+  | some (.list [.atom "parseinsttext", .atom s]) =>
+    match lex Gen.symbolsC (toCodes (dec s)) with
+    | some toks =>
+      match parseInst Gen.table Gen.ladder Gen.tySyms Gen.instSyms toks with
+      | some pairs => toString (Sexp.list (pairs.map pairTo))
+      | none => "none"
+    | none => "none"
   | some (.list [.atom "parsetytext", .atom s]) =>
     match lex Gen.symbolsC (toCodes (dec s)) with
     | some toks =>
